@@ -130,6 +130,13 @@ func IndexInt(a Object) (int, error) {
 //
 // If index is out of range throws IndexError
 func IndexIntCheck(a Object, max int) (int, error) {
+	if b, ok := a.(*BigInt); ok {
+		if _, err := b.Int(); err != nil {
+			// an integer beyond the int range is out of range for every
+			// sequence: IndexError like any other such index, not OverflowError
+			return 0, ExceptionNewf(IndexError, "cannot fit 'int' into an index-sized integer")
+		}
+	}
 	i, err := IndexInt(a)
 	if err != nil {
 		return 0, err
